@@ -22,7 +22,7 @@ KINDS = ('linear', 'cubic', 'tanh', 'expm1')
 
 def cases(seed, tier):
     rng = rng_for(seed, 'C18')
-    reps = 60 if tier == 'quick' else 1500
+    reps = 60 if tier == 'quick' else 30000
     out = []
     for r in range(reps):
         for solver in ('bisect', 'chandrupatla'):
